@@ -251,6 +251,9 @@ func (ex *Exec) callFunc(p *Path, fn *types.Func, recv *Value, args []Value, cal
 }
 
 func (ex *Exec) callFuncInner(p *Path, fn *types.Func, recv *Value, args []Value, call *ast.CallExpr) []Value {
+	saveCall := ex.curCall
+	ex.curCall = call
+	defer func() { ex.curCall = saveCall }()
 	full := fn.FullName()
 	if fn.Origin() != nil {
 		full = fn.Origin().FullName()
@@ -277,7 +280,7 @@ func (ex *Exec) callFuncInner(p *Path, fn *types.Func, recv *Value, args []Value
 			ex.skipped[key] = true
 			return nil
 		}
-		if ex.canInline(full) {
+		if ex.canInline(full) && !ex.generatedPlumbing(fi) {
 			if vals, ok := ex.tryInline(p, fi, recv, args, pos); ok {
 				return vals
 			}
@@ -388,6 +391,15 @@ func (ex *Exec) havocCall(p *Path, fn *types.Func, mayWriteHeap bool) []Value {
 		out = append(out, v)
 	}
 	return out
+}
+
+// generatedPlumbing: protoc-gen-go output other than the nil-safe getters (Descriptor, Enum, String, ProtoReflect, ...)
+// is library code to the verifier, not code under contract.
+func (ex *Exec) generatedPlumbing(fi *FuncInfo) bool {
+	if fi.Obj.Pkg() == nil || !strings.HasPrefix(fi.Obj.Pkg().Path(), modPath) || !strings.HasSuffix(ex.w.Fset.Position(fi.Decl.Pos()).Filename, ".pb.go") {
+		return false
+	}
+	return !strings.HasPrefix(fi.Decl.Name.Name, "Get")
 }
 
 func (ex *Exec) canInline(full string) bool {
@@ -816,7 +828,10 @@ func (ex *Exec) applyContract(p *Path, c *Contract, fn *types.Func, recv *Value,
 		for k, v := range saveEntry {
 			p.names[k] = v
 		}
+		saveInOld := p.inOld
+		p.inOld = true // ... in the heap at entry
 		caller := ex.evalClause(p, ex.contract.Decreases.E, false)
+		p.inOld = saveInOld
 		p.names = saved
 		ex.addObl(p, fmt.Sprintf("%s#decreases@%s", ex.funcKey, ex.siteLabel(pos)), "decreases", c.Decreases.Text,
 			"(and (>= "+callee+" 0) (< "+callee+" "+caller+"))", pos, "recursive call to "+c.Key)
@@ -836,6 +851,17 @@ func (ex *Exec) applyContract(p *Path, c *Contract, fn *types.Func, recv *Value,
 		}
 		ex.addObl(p, fmt.Sprintf("%s#call:%s.requires[%s]@%s", ex.funcKey, c.Key, nm, ex.siteLabel(pos)), "requires", r.Text, g, pos, "")
 	}
+	// entry values of the parameters (for old())
+	for i, n := range c.ParamNames {
+		if i < len(args) && n != "_" {
+			p.entry[n] = args[i]
+		}
+	}
+	type mapResult struct {
+		name string
+		val  Value
+	}
+	var mapResults []mapResult
 	// pre-state for old()
 	oldHeap := map[string]string{}
 	for k, v := range p.heap {
@@ -864,6 +890,13 @@ func (ex *Exec) applyContract(p *Path, c *Contract, fn *types.Func, recv *Value,
 		mv, ok := p.names[m]
 		if !ok {
 			ex.unsupp(pos, "contract %s: modifies %s: unknown name", c.Key, m)
+		}
+		if _, isMap := mv.Ty.Underlying().(*types.Map); isMap && field == "" {
+			// maps are references: the callee's writes are visible through the caller's variable (value-result)
+			fresh := Value{ex.c.Fresh("mapres:"+m, ex.c.SortOf(mv.Ty)), mv.Ty}
+			p.names[m] = fresh
+			mapResults = append(mapResults, mapResult{name: m, val: fresh})
+			continue
 		}
 		if field != "" {
 			ex.havocField(p, mv, field, pos)
@@ -931,6 +964,32 @@ func (ex *Exec) applyContract(p *Path, c *Contract, fn *types.Func, recv *Value,
 		ex.assumeFact(p, ex.evalClause(p, e.E, true))
 	}
 	p.oldHeap, p.oldGen = saveOld, saveOldGen
+	// write the callee's final maps back into the caller's variables
+	for _, mr := range mapResults {
+		idx := -1
+		for i, n := range c.ParamNames {
+			if n == mr.name {
+				idx = i
+			}
+		}
+		if ex.curCall == nil || idx < 0 || idx >= len(ex.curCall.Args) || ex.inContract() && ex.contractMode > 1 {
+			continue
+		}
+		if id, ok := ex.curCall.Args[idx].(*ast.Ident); ok {
+			saveCM := ex.contractMode
+			ex.contractMode = 0
+			func() {
+				defer func() { ex.contractMode = saveCM }()
+				if obj := ex.info.Uses[id]; obj != nil {
+					p.vars[obj] = mr.val
+				}
+			}()
+		} else if _, isLit := ast.Unparen(ex.curCall.Args[idx]).(*ast.CompositeLit); isLit {
+			// a map literal passed directly: nothing else refers to it after the call
+		} else {
+			ex.unsupp(pos, "contract %s: map argument %s must be a variable (reference semantics)", c.Key, mr.name)
+		}
+	}
 	return results
 }
 
